@@ -179,6 +179,64 @@ def armsOkL (tbl : Table) (ok : String → Bool) : List Expr → Bool
   | e :: es => armsOkE tbl ok e && armsOkL tbl ok es
 end
 
+mutual
+/-- a cell that owns no word and causes no access: the child of a call of a function without `self` whose own cells are
+of that kind (what `emit_fncall` does not publish) -/
+def statelessCell : LCell → Bool
+  | .mem _ => false
+  | .delay _ _ => false
+  | .child _ self cells => self.isNone && statelessCells cells
+def statelessCells : List LCell → Bool
+  | [] => true
+  | c :: cs => statelessCell c && statelessCells cs
+end
+
+/-- only such cells are published -/
+def isStateless : Option (List LCell) → Bool
+  | some s => statelessCells s
+  | none => false
+
+mutual
+/-- the wider class: only calls of functions without state are published for an `if` arm, here and in every callee
+(`ok f` = the same for the body of `f`); what the generator's `avoid_f3` profiles produce -/
+def armsZE (tbl : Table) (ok : String → Bool) : Expr → Bool
+  | .lit _ => true
+  | .var _ => true
+  | .now => true
+  | .samplerate => true
+  | .self => true
+  | .lam _ _ => true
+  | .un _ a => armsZE tbl ok a
+  | .proj a _ => armsZE tbl ok a
+  | .bin _ a b => armsZE tbl ok a && armsZE tbl ok b
+  | .letE _ a b => armsZE tbl ok a && armsZE tbl ok b
+  | .letTup _ a b => armsZE tbl ok a && armsZE tbl ok b
+  | .assign _ a b => armsZE tbl ok a && armsZE tbl ok b
+  | .ite c a b =>
+    armsZE tbl ok c && armsZE tbl ok a && isStateless (pubE tbl a) && isStateless (pubE tbl b)
+  | .tup es => armsZL tbl ok es
+  | .app f args => armsZE tbl ok f && armsZL tbl ok args
+  | .mem a _ => armsZE tbl ok a
+  | .delay _ a t _ => armsZE tbl ok a && armsZE tbl ok t
+  | .call f args _ => armsZL tbl ok args && ok f
+def armsZL (tbl : Table) (ok : String → Bool) : List Expr → Bool
+  | [] => true
+  | e :: es => armsZE tbl ok e && armsZL tbl ok es
+end
+
+/-- `armsZE` of the bodies of the named functions, call depth ≤ `n` -/
+def okTableZ (P : Prog) : Nat → String → Bool
+  | 0, _ => false
+  | n + 1, f =>
+    match findFn P.fns f with
+    | none => false
+    | some d => armsZE (table P n) (okTableZ P n) d.body
+
+/-- the wider class of `C05_published_instance_is_flat_call_up_to_stateless`: no mem, delay or call of a function with
+state inside an `if` arm, in `e` and in every function it (transitively) calls; calls of functions without state are allowed -/
+def noStatefulInArmsN (n : Nat) (P : Prog) (e : Expr) : Bool := armsZE (table P n) (okTableZ P n) e
+def noStatefulInArms (P : Prog) (e : Expr) : Bool := noStatefulInArmsN P.fns.length P e
+
 /-- `armsOkE` of the bodies of the named functions, call depth ≤ `n` -/
 def okTable (P : Prog) : Nat → String → Bool
   | 0, _ => false
